@@ -262,7 +262,9 @@ SetResult(n, v) ==
 Set(idx, n, v, r) ==
     /\ pend' = [pend EXCEPT ![n] = v]
     /\ viol' = IF ~insess THEN Append(viol, V(idx, "set_outside_session", n, v, 0))
-               ELSE IF r # SetResult(n, v)
+               \* (setting an executable node - "pinning" it as an input - reports relative to its stored
+               \* result, which is mechanism state: only sets of declared inputs are judged)
+               ELSE IF prog.nodes[n].kind = "In" /\ r # SetResult(n, v)
                     THEN Append(viol, V(idx, "set_result", n, r, SetResult(n, v)))
                ELSE viol
     /\ stats' = Bump("sets")
@@ -290,7 +292,15 @@ Refresh(idx) ==
     /\ UNCHANGED <<prog, inputs, pend, insess, world, sample, pendSample, epoch,
                    rdrVars, runVars, kfVars, stats, crVars>>
 
+(* An executable node that was given a value in the session is an input from the commit on     *)
+(* (set_input on a query that an executor computed so far): the program changes.                *)
+Pinned(p, pe) ==
+    [p EXCEPT !.nodes = [n \in DOMAIN p.nodes |->
+        IF pe[n] # None /\ p.nodes[n].kind \notin {"In", "Ex"}
+        THEN [p.nodes[n] EXCEPT !.kind = "In", !.code = <<>>] ELSE p.nodes[n]]]
+
 Commit(idx) ==
+    /\ prog' = IF \E n \in Ids : pend[n] # None /\ prog.nodes[n].kind \notin {"In", "Ex"} THEN Pinned(prog, pend) ELSE prog
     /\ inputs' = [n \in Ids |-> IF pend[n] # None THEN pend[n] ELSE inputs[n]]
     /\ sample' = [n \in Ids |-> IF pendSample[n] # None THEN pendSample[n] ELSE sample[n]]
     /\ pend' = NoneFn
@@ -308,7 +318,7 @@ Commit(idx) ==
                  ELSE Append(histIn, [n \in Ids |-> IF pend[n] # None THEN pend[n] ELSE inputs[n]])
     /\ crashed' = crashed
     /\ mustCut' = {}      \* obligations do not outlive the epoch
-    /\ UNCHANGED <<prog, world, rdrVars, lastRun, running, tainted, outLast, outPrev,
+    /\ UNCHANGED <<world, rdrVars, lastRun, running, tainted, outLast, outPrev,
                    nested, topDone, bpSkip, kfHard, ranAt, verAt, armed, fired>>
 
 Tracked(idx, t) ==
@@ -396,7 +406,10 @@ ExecNormal(idx, n, reads, out) ==
                ELSE viol
         v3  == IF n \in ran THEN Append(v2, V(idx, "double_exec", n, 0, 0)) ELSE v2
         v4  == IF insess THEN Append(v3, V(idx, "exec_during_session", n, 0, 0)) ELSE v3
-        v5  == IF BadReads(reads, val) = {} /\ out # Eval(prog, n, val).out
+        \* a node that was committed as an input is never executed again
+        v5  == IF prog.nodes[n].kind = "In"
+               THEN Append(v4, V(idx, "read_value", n, out, val[n]))
+               ELSE IF BadReads(reads, val) = {} /\ out # Eval(prog, n, val).out
                THEN Append(v4, V(idx, "harness_executor_output", n, out, Eval(prog, n, val).out)) ELSE v4
         \* C06: the cycle search saw this node on the cycle that was being closed, yet its
         \* executor run completed and published an ordinary result
